@@ -162,14 +162,13 @@ inline void hook_lock(int on) {
 inline void hook_emit(const std::string& j) {
     auto& s = vt::sink();
     if (in_bracket()) { s.buf += j; s.n++; return; }
-    s.lock(); s.buf += j; s.n++; if (s.buf.size() > (1 << 20)) s.flush_locked(); s.unlock();
+    s.lock(); s.buf += j; s.n++; if (s.autoflush || s.buf.size() > (1 << 20)) s.flush_locked(); s.unlock();
 }
 inline void hook_fn(uint32_t id, const void* obj, uint64_t a, uint64_t b, uint64_t c) {
-    if (!in_bracket()) {
-        auto& cb = hook_callback();
-        if (cb) cb(id, obj, a, b, c);
-        Perturb::maybe();
-    }
+    struct After {      // the scenario callback / perturbation runs after the event has been recorded
+        uint32_t id; const void* obj; uint64_t a, b, c;
+        ~After() { if (!in_bracket()) { auto& cb = hook_callback(); if (cb) cb(id, obj, a, b, c); Perturb::maybe(); } }
+    } after{id, obj, a, b, c};
     if (!hooks_logged().load(std::memory_order_relaxed)) return;
     char buf[256]; buf[0] = 0;
     auto T = [](const void* p) { return reg().get(p); };
@@ -187,6 +186,8 @@ inline void hook_fn(uint32_t id, const void* obj, uint64_t a, uint64_t b, uint64
     case VT_SEM_RESUME: snprintf(buf, sizeof buf, "{\"e\":\"hSemResume\",\"s\":%d,\"t\":%d,\"left\":%d}\n", T(obj), T((void*)a), (int)b); break;
     case VT_RW_STATE: snprintf(buf, sizeof buf, "{\"e\":\"hRwState\",\"o\":%d,\"st\":%d,\"mode\":%d,\"t\":%d}\n", T(obj), (int)(int64_t)a, (int)b, T((void*)c)); break;
     case VT_RW_WAKE_READERS: snprintf(buf, sizeof buf, "{\"e\":\"hRwWakeReaders\",\"o\":%d}\n", T(obj)); break;
+    case VT_STEAL: snprintf(buf, sizeof buf, "{\"e\":\"hSteal\",\"t\":%d,\"src\":%d}\n", T(obj), (int)c); break;
+    case VT_PRESWITCH: snprintf(buf, sizeof buf, "{\"e\":\"hPreSwitch\",\"t\":%d,\"to\":%d}\n", T(obj), T((void*)a)); break;
     case VT_HEAP_OP: {
         if (!heap_logged().load(std::memory_order_relaxed)) return;
         const void* th[64]; uint64_t ts[64]; int idx[64];
